@@ -11,6 +11,7 @@ import (
 	"io/fs"
 	"math"
 	"os"
+	"time"
 )
 
 // Tape holds the values returned by successive calls (native replay only).
@@ -184,3 +185,22 @@ func (d DirEnt) Type() fs.FileMode {
 func (d DirEnt) Info() (fs.FileInfo, error) { return nil, fs.ErrInvalid }
 
 func init() { _ = fmt.Sprint }
+
+// FileInf is the os.FileInfo the engine's os.Stat / os.Lstat hand out.
+type FileInf struct {
+	N string
+	D bool
+	S int64
+}
+
+func (f FileInf) Name() string { return f.N }
+func (f FileInf) Size() int64  { return f.S }
+func (f FileInf) Mode() fs.FileMode {
+	if f.D {
+		return fs.ModeDir | 0o755
+	}
+	return 0o644
+}
+func (f FileInf) ModTime() time.Time { return time.Time{} }
+func (f FileInf) IsDir() bool        { return f.D }
+func (f FileInf) Sys() any           { return nil }
